@@ -4,7 +4,8 @@ import os
 VERIF = os.path.dirname(os.path.dirname(os.path.dirname(os.path.abspath(__file__))))
 LEAN = os.path.join(VERIF, "lean")
 REPO = os.environ.get("VERIF_REPO", "/repo")
-EVIDENCE = os.path.join(VERIF, "evidence")
+# evidence describes runs against /repo only; a run against another tree (seeded-change trials) writes elsewhere
+EVIDENCE = os.path.join(VERIF, "evidence" if os.path.realpath(REPO) == "/repo" else ".work/evidence-other-tree")
 REPLAYS = os.path.join(VERIF, "replays")
 CORPUS = os.path.join(VERIF, "corpus")
 WORK_ROOT = os.path.join(VERIF, ".work")
